@@ -27,7 +27,7 @@ CONSTRAINT Emit
 CHECK_DEADLOCK FALSE
 """
 KINDS = '{"text", "vision", "mllama", "mllamaraw"}'
-STYLES = '{"legacy", "messages"}'
+STYLES = '{"legacy", "messages", "sysonce"}'
 
 
 def usable(c):
@@ -55,7 +55,7 @@ def run(tier="quick", seed=1, replay=None):
             vals, r = vf.gen_exhaustive("ChatPrompt", cfg, wd, timeout=3000)
             cov["states"], cov["transitions"] = r["distinct"], r["generated"]
             cov["exhaustive"] = True
-            cov["bounds"] = (f"all conversations of <= {maxm} messages over 14 message shapes x 4 model kinds x 2 template "
+            cov["bounds"] = (f"all conversations of <= {maxm} messages over 14 message shapes x 4 model kinds x 3 template "
                              "styles, every context limit at and just below every candidate threshold")
             consts = dict(consts, MaxMsgs=6)
             cfg = vf.write_cfg(wd, "Sim_ChatPrompt.cfg", consts, GEN_BODY)
